@@ -165,9 +165,16 @@ pub fn gen_src_tree(r: &mut Rng, depth: u32) -> E {
         0 | 1 => E::Unary { right: Box::new(gen_src_tree(r, d)), operator: *r.pick(&UNOPS) },
         2..=6 => E::Binary { left: Box::new(gen_src_tree(r, d)), right: Box::new(gen_src_tree(r, d)), operator: *r.pick(&BINOPS) },
         7 => { let n = r.below(4); E::Array { expressions: (0..n).map(|_| gen_src_tree(r, d)).collect() } }
-        _ => { let n = r.below(4); E::Call { name: (*r.pick(&["f", "max", "if_then", "G_1"])).to_string(), params: (0..n).map(|_| gen_src_tree(r, d)).collect() } }
+        _ => { let n = r.below(4); E::Call { name: { let own = r.chance(1, 2); (*r.pick(if own { &["f", "max", "if_then", "G_1"] } else { CALL_NAMES })).to_string() }, params: (0..n).map(|_| gen_src_tree(r, d)).collect() } }
     }
 }
+/// names a script author coming from Delphi / Excel / SQL / JavaScript would type for a function, and the crate's own names in other
+/// letter cases: a compiler or validator that special-cases a NAME (an alias table, a rewrite of a well-known call) meets it here with
+/// zero to three arguments
+pub const CALL_NAMES: &[&str] = &["pos", "Pos", "POS", "IntToStr", "StrToInt", "StrToFloat", "FloatToStr", "SameText", "IncMonth", "Copy", "Length", "UpperCase", "LowerCase",
+    "Trim", "Now", "Date", "Ord", "Chr", "Abs", "Round", "Trunc", "Frac", "iif", "IIF", "len", "Len", "substr", "substring", "mid", "left", "right", "now", "today", "isnull",
+    "coalesce", "nvl", "concat", "format", "sum", "avg", "count", "min", "Max", "MIN", "If_Then", "ifthen", "indexOf", "replace", "Replace", "split", "join", "contains",
+    "length", "at", "copy", "insert", "find", "reverse", "unique", "sort", "str", "float", "int", "bool", "date", "time", "year", "random", "choice", "re_find", "lowercase"];
 /// a WIDE source-expressible tree: a long operator chain or a long list whose items include many empty lists, zero-argument calls
 /// and parenthesised groups (anything the parser counts, opens or closes is repeated hundreds of times at nesting depth 1-2)
 pub fn gen_wide_tree(r: &mut Rng) -> E {
@@ -248,7 +255,7 @@ pub fn gen_tokens(r: &mut Rng, n: usize) -> Vec<T> {
     let kinds = tok_kinds();
     (0..n).map(|_| match r.below(8) {
         0 => T::Literal(gen_small_val(r)),
-        1 => T::Identifier((*r.pick(&["a", "f", "if_then", "B"])).to_string()),
+        1 => { let own = r.chance(2, 3); T::Identifier((*r.pick(if own { &["a", "f", "if_then", "B"] } else { CALL_NAMES })).to_string()) }
         _ => r.pick(&kinds).clone(),
     }).collect()
 }
